@@ -14,11 +14,15 @@
    workload all the same).  A fault inside the clean-up (kc <> None) is outside the property: the compensation
    itself has to succeed.  C30_cleanup_runs states the clean-up in isolation.  C30_stream_closes (every world,
    every fault position): the last thing the whole operation does is close the stream.  Fault positions are the
-   faultable calls; a channel send is not one.  C30_cleanup_scenarios re-checks, for every fault position
+   faultable calls; a channel send is not one.  C30_all_removed (the WHOLE operation, EVERY world satisfying the
+   history invariant, every feasible plan, no fault): every workload the run-and-wait created is gone when it ends (no
+   record, no container), the records are exactly those of before and usage = sum holds: nothing of the run is left
+   on any node.  With a fault the whole-operation statement is checked on scenarios: C30_cleanup_scenarios re-checks, for every fault position
    outside the clean-up, the boolean the harness evaluates on the implementation, on explicit scenarios.
    Hypothesis on the WAL: the token it issues next is not in use (tokens only grow). *)
 From Coq Require Import List ZArith.
-From Verif Require Import Base.Effects Calcium.World Calcium.Ops Calcium.Run Calcium.Sweeps Calcium.LambdaProofs.
+From Verif Require Import Base.Effects Calcium.World Calcium.Ops Calcium.Run Calcium.Sweeps Calcium.LambdaProofs
+  Calcium.OpsProofs2 Calcium.CreateProofs2 Calcium.HistoryProofs Calcium.LambdaAll.
 
 Theorem C30_cleanup : forall stdin lines id r w k x nd p,
   find_wl w id = Some x -> find_node w (w_node x) = Some nd -> find_plug w (w_node x) = Some p ->
@@ -47,6 +51,16 @@ Theorem C30_stream_closes : forall opi pod r plan stdin lines w k,
   exists w1 k', crunk (lambda opi pod r plan stdin lines) w k = (set_out w1 (MClose :: out w1), k', tt).
 Proof. exact lambda_closes. Qed.
 Print Assumptions C30_stream_closes.
+
+(* the whole operation without a fault: nothing of the run is left *)
+Theorem C30_all_removed : forall opi pod r plan stdin lines w,
+  create_hyp w opi r plan -> Inv w -> wal_ok w ->
+  let w' := after (lambda opi pod r plan stdin lines) w None in
+  wls w' = wls w /\ Inv w' /\
+  exists ms, snd (crunk (create opi pod r plan) w None) = ms /\
+    forall p, In p (created_of ms) -> find_wl w' (fst p) = None /\ find_cont w' (fst p) = None.
+Proof. exact lambda_all_removed. Qed.
+Print Assumptions C30_all_removed.
 
 (* the rpc handler (sync mode) drains the channel to its end whatever the stream does *)
 Theorem C30_rpc_drains : forall ms n k, fst (rpc_forward ms n k) = ms.
